@@ -1123,6 +1123,8 @@ class Gen:
                 ft = first_tok(c, P_UNARY)
                 if ft in ('-', '+', '++', '--') or (ft == '(' and c.k in ('idx', 'mem', 'post', 'call')) or '<' in ft:
                     n.flags = n.flags | {'paren'}
+                elif c.k == 'pre' and first_tok(c.ch[0], P_UNARY) in ('*', '&', '-', '+', '++', '--'):
+                    n.flags = n.flags | {'paren'}      # `sizeof &*p`, `sizeof !-x`: second prefix operator not consumed
             if n.k == 'bin' and n.op == '*':
                 e = self.right_edge(n.ch[0], n.prec, lambda x: x.k == 'sze' and 'paren' not in x.flags)
                 if e is not None:
@@ -1141,6 +1143,11 @@ class Gen:
             # finding: `E(*p)` is taken for a declaration (valueType gets a pointer level)
             if first_tok(n.ch[0], P_ASSIGN) in ('*', '&'):
                 n.op = 'int'
+        if 'new-comma' in ex and n.k == 'bin' and n.op == ',':
+            # finding: `… new T[n], x` loses the comma operator
+            e = self.right_edge(n.ch[0], P_COMMA, lambda x: x.k == 'new')
+            if e is not None:
+                e.k, e.op, e.ch, e.txt, e.extra, e.prec = 'leaf', None, [], self.leaf(e.cat).txt, None, P_POST
         if n.k == 'bin' and n.op in ('*', '&', '&&', '<'):
             e = self.bare_new_at_right_edge(n.ch[0], n.prec)
             if e is not None:
